@@ -303,6 +303,48 @@ prop("C11", driver=_doc,
      **_doc_common)
 
 
+# ---------------------------------------------------------------------------------------------
+# C07 C08 URLs
+_url_common = dict(
+    family="url",
+    mc=lambda tier: [("MC_URL", "MC_URL.cfg")],
+    gen=lambda tier: ("MC_URL", "MC_URL.cfg"),
+    driver=lambda tier, seed, gen, out: ["url", "-gen", gen, "-out", out, "-seed", str(seed)] +
+    _t(tier, ["-n", "3000", "-mut", "800"], ["-n", "400000", "-mut", "100000"]),
+    trace=("Trace_URL", "Trace_URL.cfg"),
+    required=["url:ok", "url:err", "url:include-kept", "url:collection", "chain", "chain:special", "mutated"],
+    assumptions=["fixed schema: ta (2 attributes, relationships r and rs - one a string prefix of the other), tb, and tc "
+                 "without any field; soft or struct-backed", "request tokens are obtained from generated text with net/url"],
+    coverage=False,
+)
+prop("C07",
+     level_text="The specification states Consistent(request, URL) - resource type in the schema, field selection per "
+                "type (only its fields or id, no duplicate, all fields by default), inclusion paths as chains of the "
+                "schema's relationships with every valid requested path kept unless a longer requested one extends "
+                "it, sorting rules keeping the caller's valid rules in order and containing id - and an intended "
+                "parser; TLC checks the parser against it on 4,112 requests and emits the component vocabularies "
+                "(16 paths, 13 field selections, 13 rule lists, 17 include lists, filter and page classes). The "
+                "driver renders every component against every path, seeded combinations of all of them and mutated "
+                "raw texts (malformed escapes, stray separators) in several encodings, parameter orders and split "
+                "forms, calls NewURLFromRaw under recover on soft and struct-backed schemas, and TLC judges each "
+                "projected result.",
+     level_note="Known finding: an invalid include that follows another invalid one is kept (pinned by "
+                "TestParseParams). A panic, or an error together with a URL, is a rejection.",
+     **_url_common)
+prop("C08",
+     level_text="Same specification and vocabulary; for every accepted URL the chain parse -> String() -> parse -> "
+                "String() is run on the real code and judged step by step (the text parses, same fragments, type, id, "
+                "relationship, field sets, sorting rules, page parameters of collection URLs, filter label / tree, "
+                "same text again), and four variants of the raw URL (parameters reordered, names inside fields and "
+                "include lists reordered, empty items inserted, other encoding) must give the same String(). Ids, "
+                "filter labels, filter JSON (nested and/or trees, string/number/bool/null values) and page values "
+                "contain space, &, ?, #, %, +, =, quotes and non-ASCII text.",
+     level_note="Known finding: a field-selection entry without any field is written as the malformed "
+                "'fields%5Btype%' (pinned by golden files). The comparison of the two URLs is done by the driver "
+                "(reflect.DeepEqual per component) and reported to TLC as booleans.",
+     **_url_common)
+
+
 def run(pid, tier, seed):
     P = PROPS[pid]
     if "run" in P:
